@@ -710,4 +710,140 @@ theorem reorder_sortRaw (fx : Bool) (num : List Nat → Nat) (es : List RawEntry
     exact .trans (Reorder.cons (classify fx num x) (ih hxs))
       (reorder_insertRaw fx num x (sortRaw xs) hins)
 
+/-! ### Failing file-system calls, several writers (fifth deepening) -/
+/-- Every `rename` in `steps`, run from the temporary-file state `t`, moves a `good` content. -/
+def RenSafe {α : Type} (good : List α → Prop) : Option (List α) → List (FsStep α) → Prop
+  | _, [] => True
+  | t, s :: rest =>
+    (s = FsStep.rename → ∀ x, t = some x → good x) ∧
+      RenSafe good (fsStep ⟨none, t⟩ s).tmp rest
+
+theorem fsStep_tmp_indep {α : Type} (p q : Option (List α)) (t : Option (List α)) (s : FsStep α) :
+    (fsStep ⟨p, t⟩ s).tmp = (fsStep ⟨q, t⟩ s).tmp := by
+  cases s <;> simp [fsStep] <;> cases t <;> simp
+
+theorem fsStep_path {α : Type} (p : Option (List α)) (t : Option (List α)) (s : FsStep α) :
+    (fsStep ⟨p, t⟩ s).path = p ∨ (s = FsStep.rename ∧ ∃ x, t = some x ∧ (fsStep ⟨p, t⟩ s).path = some x) := by
+  cases s <;> simp [fsStep]
+  cases t <;> simp
+
+theorem RenSafe_prefix {α : Type} (good : List α → Prop) (t : Option (List α)) (p q : List (FsStep α))
+    (h : RenSafe good t (p ++ q)) : RenSafe good t p := by
+  induction p generalizing t with
+  | nil => simp [RenSafe]
+  | cons s rest ih =>
+    simp only [List.cons_append, RenSafe] at h ⊢
+    exact ⟨h.1, ih _ h.2⟩
+
+theorem RenSafe_writes {α : Type} (good : List α → Prop) (t : List α) (chunks : List (List α))
+    (tail : List (FsStep α)) (h : RenSafe good (some (t ++ chunks.flatten)) tail) :
+    RenSafe good (some t) (chunks.map FsStep.write ++ tail) := by
+  induction chunks generalizing t with
+  | nil => simpa using h
+  | cons c cs ih =>
+    simp only [List.map, List.cons_append, RenSafe]
+    refine ⟨(by intro h; cases h), ?_⟩
+    simp only [fsStep, Option.map]
+    apply ih
+    simpa [List.append_assoc] using h
+
+theorem fsTraceF_safe {α : Type} (chunks : List (List α)) (ok : Bool) (f : FsFault) (t : Option (List α)) :
+    RenSafe (fun x => ok = true ∧ x = chunks.flatten) t (fsTraceF chunks ok f) := by
+  cases f with
+  | none =>
+    simp only [fsTraceF, fsTrace, RenSafe, fsStep]
+    refine ⟨(by intro h; cases h), ?_⟩
+    apply RenSafe_writes
+    cases ok <;> simp [RenSafe, fsStep]
+  | chtimesFails =>
+    simp only [fsTraceF, fsTrace, RenSafe, fsStep]
+    refine ⟨(by intro h; cases h), ?_⟩
+    apply RenSafe_writes
+    cases ok <;> simp [RenSafe, fsStep]
+  | createFails => simp [fsTraceF, RenSafe]
+  | writeFails i j =>
+    simp only [fsTraceF, RenSafe, fsStep]
+    refine ⟨(by intro h; cases h), ?_⟩
+    apply RenSafe_writes
+    simp [RenSafe, fsStep]
+  | replaceFails =>
+    simp only [fsTraceF, RenSafe, fsStep]
+    refine ⟨(by intro h; cases h), ?_⟩
+    apply RenSafe_writes
+    cases ok <;> simp [RenSafe]
+
+theorem proj_cons_same {α : Type} (w : Nat) (st : FsStep α) (tr : List (Nat × FsStep α)) :
+    proj w ((w, st) :: tr) = st :: proj w tr := by simp [proj]
+
+theorem proj_cons_other {α : Type} (w v : Nat) (st : FsStep α) (tr : List (Nat × FsStep α)) (h : v ≠ w) :
+    proj w ((v, st) :: tr) = proj w tr := by simp [proj, h]
+
+theorem mfs_safe {α : Type} (good : List α → Prop) (tr : List (Nat × FsStep α)) (fs : MFs α)
+    (h : ∀ w, RenSafe good (fs.tmp w) (proj w tr)) :
+    (mfsExec fs tr).path = fs.path ∨ ∃ x, good x ∧ (mfsExec fs tr).path = some x := by
+  induction tr generalizing fs with
+  | nil => left; rfl
+  | cons s tr ih =>
+    obtain ⟨v, st⟩ := s
+    have hv := h v
+    rw [proj_cons_same] at hv
+    simp only [RenSafe] at hv
+    have hnext : ∀ w, RenSafe good ((mfsStep fs (v, st)).tmp w) (proj w tr) := by
+      intro w
+      by_cases hw : w = v
+      · subst hw
+        simp only [mfsStep, if_true]
+        rw [fsStep_tmp_indep fs.path none]
+        exact hv.2
+      · have := h w
+        rw [proj_cons_other w v st tr (fun e => hw e.symm)] at this
+        simpa [mfsStep, hw] using this
+    have hstep : mfsExec fs ((v, st) :: tr) = mfsExec (mfsStep fs (v, st)) tr := rfl
+    rw [hstep]
+    rcases ih (mfsStep fs (v, st)) hnext with h1 | ⟨x, hx, h1⟩
+    · rcases fsStep_path fs.path (fs.tmp v) st with h2 | ⟨hr, x, hx, h2⟩
+      · left; rw [h1]; exact h2
+      · right
+        exact ⟨x, hv.1 hr x hx, by rw [h1]; exact h2⟩
+    · exact Or.inr ⟨x, hx, h1⟩
+
+theorem RenSafe_mono {α : Type} (good good' : List α → Prop) (hg : ∀ x, good x → good' x)
+    (t : Option (List α)) (steps : List (FsStep α)) (h : RenSafe good t steps) :
+    RenSafe good' t steps := by
+  induction steps generalizing t with
+  | nil => simp [RenSafe]
+  | cons s rest ih =>
+    simp only [RenSafe] at h ⊢
+    exact ⟨fun hs x hx => hg x (h.1 hs x hx), ih _ h.2⟩
+
+/-- One writer: if every `rename` in `steps` moves a `good` content, the cache path holds what it
+held or a `good` content. -/
+theorem fs_safe {α : Type} (good : List α → Prop) (steps : List (FsStep α)) (fs : Fs α)
+    (h : RenSafe good fs.tmp steps) :
+    (fsExec fs steps).path = fs.path ∨ ∃ x, good x ∧ (fsExec fs steps).path = some x := by
+  induction steps generalizing fs with
+  | nil => left; rfl
+  | cons s rest ih =>
+    simp only [RenSafe] at h
+    have hstep : fsExec fs (s :: rest) = fsExec (fsStep fs s) rest := rfl
+    rw [hstep]
+    have hn : RenSafe good (fsStep fs s).tmp rest := by
+      have := fsStep_tmp_indep fs.path none fs.tmp s
+      rw [this]; exact h.2
+    rcases ih (fsStep fs s) hn with h1 | ⟨x, hx, h1⟩
+    · rcases fsStep_path fs.path fs.tmp s with h2 | ⟨hr, x, hx, h2⟩
+      · left; rw [h1]; exact h2
+      · right; exact ⟨x, h.1 hr x hx, by rw [h1]; exact h2⟩
+    · exact Or.inr ⟨x, hx, h1⟩
+
+/-- A trace without a `rename` leaves the cache path alone. -/
+theorem RenSafe_of_no_rename {α : Type} (steps : List (FsStep α)) (t : Option (List α))
+    (h : FsStep.rename ∉ steps) : RenSafe (fun _ => False) t steps := by
+  induction steps generalizing t with
+  | nil => simp [RenSafe]
+  | cons s rest ih =>
+    simp only [RenSafe]
+    refine ⟨fun hs => ?_, ih _ (fun hm => h (List.mem_cons_of_mem _ hm))⟩
+    exact absurd (hs ▸ List.mem_cons_self) h
+
 end Agd.Refresh
